@@ -186,14 +186,18 @@ package bridgesync
 //@   modifies nothing
 //@   ensures result1 != nil ==> result0 == nil
 //@ func (p *processor) isBlockProcessed (p, tx, blockNum)
-//@   trusted
-//@   modifies nothing
+//@   props C02 C03 C05
+//@   requires tx != nil
+//@   modifies bsLastBlockScanFaults
+//@   ensures[nil-only-when-the-block-is-processed] result == nil ==> blockNum <= ite(bsLastBlockRow == -1, 0, bsLastBlockRow)
+//@   assert call:getLastProcessedBlockWithTx arg1 == tx
 //@ func (p *processor) queryBlockRange (p, tx, fromBlock, toBlock, table)
 //@   props C02 C03 C05
 //@   requires p != nil && tx != nil
-//@   modifies nothing
+//@   modifies bsLastBlockScanFaults
 //@   sqltext "SELECT * FROM %s WHERE block_num >= $1 AND block_num <= $2 ORDER BY block_num ASC, block_pos ASC;"
 //@   ensures[error-means-no-rows-object] result1 != nil ==> result0 == nil
+//@   ensures[served-only-for-a-processed-range] result1 == nil ==> toBlock <= ite(bsLastBlockRow == -1, 0, bsLastBlockRow)
 //@   assert call:isBlockProcessed arg1 == tx && arg2 == toBlock
 //@   assert call:Query recv == tx && len(arg1) == 2 && typeIs(arg1[0], uint64) && unbox(arg1[0], uint64) == fromBlock && typeIs(arg1[1], uint64) && unbox(arg1[1], uint64) == toBlock
 // the last processed block (the restart point of the download, C05): bsLastBlockRow is the highest block row, -1 when the
